@@ -229,6 +229,11 @@ def solveIlStep [Zero α] [Sub α] [Mul α] (L : Csr α) (b : Array α) (x : Arr
 def solveIl [Zero α] [Sub α] [Mul α] (L : Csr α) (b x : Array α) : Array α :=
   (List.range L.rows).foldl (solveIlStep L b) x
 
+/-- `solve_il(x, x)`: the in-place call of `ILUPrecond::apply(v, v)` ("x and b are allowed to refer to the same
+    array": row `i` reads `b[i] = x[i]` before overwriting it) -/
+def solveIlIn [Zero α] [Sub α] [Mul α] (L : Csr α) (x : Array α) : Array α :=
+  (List.range L.rows).foldl (fun x i => solveIlStep L x x i) x
+
 /-- row `i` of `solve_du(x, x)`: `r = x[i]; for j in row i of U: r -= U[j] * x[col[j]]; x[i] = dinv[i] * r` -/
 def solveDuStep [Zero α] [Sub α] [Mul α] (U : Csr α) (dinv : Array α) (x : Array α) (i : Nat) : Array α :=
   x.setIfInBounds i (dinv.getD i 0 *
